@@ -142,7 +142,7 @@ def _to_hashable(obj):
     if type(obj) is list:
         return tuple(_to_hashable(_) for _ in obj)
     elif type(obj) is dict:
-        return _hashable_dict(obj)
+        return _hashable_dict((key, _to_hashable(value)) for key, value in obj.items())
     else:
         return obj
 
